@@ -173,7 +173,7 @@ func (g *randGen) prop(gt, term string, ft reflect.Type, depth int) J {
 			return g.str("Note")
 		case "rel", "href":
 			return g.str(g.iriStr())
-		case "hrefLang":
+		case "hreflang":
 			return g.str("en")
 		case "units":
 			return g.str([]string{"m", "km", "miles", "feet"}[g.rng.Intn(4)])
